@@ -18,26 +18,31 @@ def plan(prop, tier, seed, t0):
     if q:
         traces = [
             dict(name="exh", engine="f2", args=["--exhaustive", "3,3", "--exhaustive", "2,4"], **T),
-            dict(name="rand", engine="f2", args=["--random", 250, "--maxdim", 24], **T),
+            dict(name="rand", engine="f2", args=["--random", 250, "--maxdim", 24, "--special"], **T),
             dict(name="rand8", engine="f2", args=["--random", 250, "--maxdim", 8], **T),
         ]
     else:
         traces = [
             dict(name="exh", engine="f2", args=["--exhaustive", "3,4", "--exhaustive", "4,3"], **T),
-            dict(name="rand", engine="f2", args=["--random", 3000, "--maxdim", 24], **T),
+            dict(name="rand", engine="f2", args=["--random", 3000, "--maxdim", 24, "--special"], **T),
             dict(name="rand8", engine="f2", args=["--random", 6000, "--maxdim", 8], **T),
         ]
     assume = [a for a in COMMON_ASSUME if "absg.rs" not in a and "ZXSem" not in a] + [
         "the recording proxy (harness/src/eng_f2.rs, struct Rec) logs exactly the row operations gauss_x hands to it",
         "matrices with a zero dimension are outside the property (Mat2 cannot represent 0 x c); block size >= 1",
+        "row_weight / weight / unit_rows return u8: for matrices with more than 255 ones (possible from 16 x 16 on) weight() cannot "
+        "return the count (panic in an overflow-checked build, wrapped value otherwise); C17 does not speak about Hamming weights, so "
+        "that case is counted (trace_stats.weight_overflow, weight_overflow_panics), not judged",
     ]
     return run_plan(prop, tier, seed, t0, mcs, traces, "model_checking", assume,
                     "MC: every 0/1 matrix of the listed shapes x every block size 1..cols x both modes on the transcription of "
                     "gauss_helper (row space unchanged, (reduced) echelon, rank, reported operations = G with G*M = M' and X -> G*X on "
                     "every other object, inverse two-sided iff invertible, null space = a basis of the kernel) and the algebraic laws of "
                     "transpose / stack / mul on the abstract operators; TRACE: one execution = one matrix on which gauss_x (recording "
-                    "proxy, every block size, both modes), gauss, rank, inverse, nullspace, transpose, vstack, hstack, mul, RowOps and "
-                    "ColOps ran in the real code; each logged result is decided by TLC with the abstract definitions (RowSpace up to "
+                    "proxy, every block size, both modes), gauss, rank, inverse, nullspace, transpose, vstack, hstack, mul (all four "
+                    "operand-ownership overloads), RowOps and ColOps, row_weight / weight / unit_rows, zeros / ones / id / unit_vector, "
+                    "Index / IndexMut<(usize, usize)> and Display ran in the real code (--special: all-ones and other constructor-built "
+                    "matrices with 254..576 ones); each logged result is decided by TLC with the abstract definitions (RowSpace up to "
                     "6 x 6, RankElim above, up to 24 x 24); non-trivial = calls with a non-degenerate check (gauss_x runs that emitted "
                     "at least one operation, every other call)")
 
@@ -50,7 +55,8 @@ META = dict(
          "cancellation per block, forward and backward phases, emitted row operations) with inverse and nullspace on top; TLC exhausts the "
          "post-conditions of C17 for every matrix up to 3x4 / 4x3 (thorough: also 4x4, 3x5, 2x6) x every block size x both modes and the "
          "algebraic laws; every result of the real Mat2::{gauss_x, gauss, rank, inverse, nullspace, transpose, vstack, hstack, mul, "
-         "row_add/row_swap, col_add/col_swap} on the exhaustive family and on seeded random matrices up to 24x24 (sparse, dense, low rank, "
+         "row_add/row_swap, col_add/col_swap, all four Mul overloads, row_weight, weight, unit_rows, zeros, ones, id, unit_vector, "
+         "Index/IndexMut<(usize,usize)>} on the exhaustive family and on seeded random matrices up to 24x24 (sparse, dense, low rank, "
          "duplicate rows, zero rows/columns, repeated sub-rows, invertible) is validated by TLC against the ABSTRACT machine: any correct "
          "elimination order is accepted, agreement with the transcription is only reported as L1 drift. The code's own RowOps proxy "
          "parameter is the trace hook (no change to the repository).",
